@@ -377,6 +377,148 @@ def rule_ref_patterns(text, ctx):
         text = text[:toks[i].s] + new + text[toks[brace].e:]
 
 
+def _balanced(text, open_pos):
+    """index of the bracket closing the one at open_pos (plain scan; the extracted functions have no brackets in strings)"""
+    pairs = {'(': ')', '[': ']', '{': '}'}
+    o = text[open_pos]
+    c = pairs[o]
+    depth = 0
+    k = open_pos
+    while k < len(text):
+        if text[k] == o:
+            depth += 1
+        elif text[k] == c:
+            depth -= 1
+            if depth == 0:
+                return k
+        k += 1
+    raise ExtractError('unbalanced bracket')
+
+
+def rule_refcell_scoped(text, ctx):
+    """R28: RefCell erasure for a function that holds a named guard `let G = &[mut] self.states[I].borrow[_mut]();` while it borrows
+    other cells of the same vector.
+      * `&self` -> `&mut self` when the function contains a `borrow_mut()` (the erased code mutates through the receiver);
+      * the guard binding is dropped and every `G.field` in its scope becomes the place `self.states[I].field` it derefs to;
+      * `for PAT in &G.edges {` iterates over a snapshot: `let verif_snap = verif_edges_snapshot(&self.states[I].edges); for PAT in &verif_snap {`
+        (the map of a borrowed cell cannot change while the guard lives: every mutation goes through `borrow_mut()` of that cell, which panics);
+      * the dynamic borrow check the erasure drops is made explicit: before every statement in the scope that borrows cell J in a way that
+        conflicts with the guard (any `borrow_mut()`; any borrow, incl. the one inside `self.child_id(J, ..)`, when the guard is `borrow_mut()`)
+        an `assert!(J != I);` is inserted: exactly the condition under which the original panics with BorrowError/BorrowMutError.
+    The remaining `.borrow()` / `.borrow_mut()` calls are temporaries that die at the end of their statement; R9 erases them afterwards."""
+    if '.borrow_mut()' in text:
+        t2 = re.sub(r'\(&self\b', '(&mut self', text, count=1)
+        if t2 != text:
+            ctx.note('R28', '&self (function contains borrow_mut())', '&mut self')
+            text = t2
+    n_snap = 0
+    while True:
+        m = re.search(r'let (\w+) = &(mut )?self\.states\[', text)
+        if not m:
+            return text
+        close = _balanced(text, m.end() - 1)
+        m2 = re.match(r'\s*\.borrow(_mut)?\(\);', text[close + 1:])
+        if not m2:
+            raise ExtractError('R28: guard binding of an unexpected shape: ' + text[m.start():close + 40])
+        g = m.group(1)
+        idx = text[m.end():close].strip()
+        excl = bool(m2.group(1))
+        cell = 'self.states[%s]' % idx
+        let_end = close + 1 + m2.end()
+        # scope: to the close of the enclosing block
+        depth = 0
+        k = let_end
+        while True:
+            if text[k] == '{':
+                depth += 1
+            elif text[k] == '}':
+                if depth == 0:
+                    break
+                depth -= 1
+            k += 1
+        scope = text[let_end:k]
+        before_scope = scope
+
+        def snap(mm):
+            nonlocal n_snap
+            n_snap += 1
+            return 'let verif_snap%d = verif_edges_snapshot(&%s.edges); for %s in &verif_snap%d {' % (n_snap, cell, mm.group(1), n_snap)
+        scope = re.sub(r'for ([^{;]*?) in &%s\.edges \{' % g, snap, scope)
+        scope = re.sub(r'(?<![\w.])%s\.' % g, cell + '.', scope)
+        # conflicting borrow sites
+        sites = []
+        for mm in re.finditer(r'self\.states\[', scope):
+            c2 = _balanced(scope, mm.end() - 1)
+            m3 = re.match(r'\s*\.borrow(_mut)?\(\)', scope[c2 + 1:])
+            if not m3:
+                continue          # a place produced by the inlining above: access through the guard itself
+            if excl or m3.group(1):
+                sites.append((mm.start(), scope[mm.end():c2].strip()))
+        if excl:
+            for mm in re.finditer(r'self\.child_id\((\w+),', scope):
+                sites.append((mm.start(), 'usize::from_u32(%s)' % mm.group(1)))
+        ins = []
+        for pos, j in sites:
+            q = pos - 1
+            while q >= 0 and scope[q] not in ';{}':
+                q -= 1
+            ins.append((q + 1, j))
+        for at, j in sorted(set(ins), reverse=True):
+            scope = scope[:at] + ' assert!(%s != %s);' % (j, idx) + scope[at:]
+        ctx.note('R28', text[m.start():let_end] + ' .. (guard scope)',
+                 'guard dropped; %s.field -> %s.field; snapshot iteration; %d explicit borrow checks assert!(J != %s)' % (g, cell, len(set(ins)), idx))
+        text = text[:m.start()] + scope + text[k:]
+
+
+def rule_break_value(text, ctx):
+    """R29: `let X = loop { .. break E; .. };` -> `let X; loop { .. { X = E; break; } .. }` and
+    `let X = if C { E1 } else { loop { .. break E; .. } };` -> `let X; if C { X = E1; } else { loop { .. { X = E; break; } .. } }`
+    (Verus: "complex break expressions" are unsupported; a `break E` of a loop without nested loops)."""
+    while True:
+        m = re.search(r'let (\w+) = (loop|if)\b', text)
+        if not m:
+            return text
+        x = m.group(1)
+        if m.group(2) == 'loop':
+            ob = text.index('{', m.end())
+            cb = _balanced(text, ob)
+            body = text[ob:cb + 1]
+            m_end = re.match(r'\s*;', text[cb + 1:])
+            if not m_end:
+                raise ExtractError('R29: loop expression not followed by `;`')
+            if re.search(r'\b(loop|while|for)\b', body[1:]):
+                raise ExtractError('R29: nested loop inside a loop with break values')
+            body2 = re.sub(r'\bbreak ([^;]+);', lambda mm: '{ %s = %s; break; }' % (x, mm.group(1)), body)
+            new = 'let %s; loop %s' % (x, body2)
+            ctx.note('R29', 'let %s = loop { .. break E; .. };' % x, 'let %s; loop { .. { %s = E; break; } .. }' % (x, x))
+            text = text[:m.start()] + new + text[cb + 1 + m_end.end():]
+        else:
+            ob = text.index('{', m.end())
+            cb = _balanced(text, ob)
+            cond = text[m.end():ob].strip()
+            e1 = text[ob + 1:cb].strip()
+            m_else = re.match(r'\s*else\s*\{', text[cb + 1:])
+            if not m_else or ';' in e1:
+                raise ExtractError('R29: unsupported `let X = if` shape')
+            ob2 = cb + 1 + m_else.end() - 1
+            cb2 = _balanced(text, ob2)
+            inner = text[ob2 + 1:cb2].strip()
+            m_end = re.match(r'\s*;', text[cb2 + 1:])
+            if not inner.startswith('loop') or not m_end:
+                raise ExtractError('R29: else branch is not a single loop expression')
+            lob = inner.index('{')
+            lcb = _balanced(inner, lob)
+            if inner[lcb + 1:].strip() != '':
+                raise ExtractError('R29: else branch is not a single loop expression')
+            body = inner[lob:lcb + 1]
+            if re.search(r'\b(loop|while|for)\b', body[1:]):
+                raise ExtractError('R29: nested loop inside a loop with break values')
+            body2 = re.sub(r'\bbreak ([^;]+);', lambda mm: '{ %s = %s; break; }' % (x, mm.group(1)), body)
+            new = 'let %s; if %s { %s = %s; } else { loop %s }' % (x, cond, x, e1, body2)
+            ctx.note('R29', 'let %s = if C { E1 } else { loop { .. break E; .. } };' % x, 'let %s; if C { %s = E1; } else { loop { .. { %s = E; break; } .. } }' % (x, x, x))
+            text = text[:m.start()] + new + text[cb2 + 1 + m_end.end():]
+
+
 def rule_refcell(text, ctx):
     """R9: RefCell erasure."""
     before = text
@@ -395,9 +537,9 @@ def rule_btree_iter(text, ctx, bind=False):
         def f(m):
             ctx.note('R13', m.group(0), 'in %s.iter() {' % m.group(1))
             return 'in %s.iter() {' % m.group(1)
-        return re.sub(r'in &([\w.]*\.edges) \{', f, text)
+        return re.sub(r'in &([\w.]*\.edges|verif_snap\d+) \{', f, text)
     while True:
-        m = re.search(r'for ([^{;]*?) in &([\w.]*\.edges) \{', text)
+        m = re.search(r'for ([^{;]*?) in &([\w.]*\.edges|verif_snap\d+) \{', text)
         if not m:
             return text
         toks = L.code_toks(text)
@@ -737,6 +879,10 @@ def apply_fn(text, spec, ctx, assoc_types=None, canary=False):
             if ('Self::' + k) in text:
                 ctx.note('R4', 'Self::' + k, v)
                 text = text.replace('Self::' + k, v)
+    if 'R28' in spec.rules:
+        text = rule_refcell_scoped(text, ctx)
+    if 'R29' in spec.rules:
+        text = rule_break_value(text, ctx)
     if 'R9' in spec.rules:
         text = rule_refcell(text, ctx)
     if 'R11' in spec.rules:
@@ -1011,7 +1157,30 @@ def process_template(unit, tpl_path=None, canary=False):
         exp = []
         for ln in ls:
             s = ln.strip()
-            if s.startswith('//@include '):
+            if s.startswith('//@includeblock '):
+                # one named block (`//@block NAME` .. `//@endblock`) of a file: the same contract text used in two places
+                _, rel, bname = s.split(None, 2)
+                with open(os.path.join(CONTRACTS, rel), encoding='utf-8') as f:
+                    bl = f.read().split('\n')
+                try:
+                    lo = [k for k, x in enumerate(bl) if x.strip() == '//@block ' + bname][0]
+                    hi = [k for k, x in enumerate(bl) if k > lo and x.strip() == '//@endblock'][0]
+                except IndexError:
+                    raise ExtractError('%s: no block %r' % (rel, bname))
+                exp.extend(bl[lo + 1:hi])
+            elif s.startswith('//@include_subst '):
+                # the same ghost text for the other label type: word-wise substitution A=B on the included file (and on what it includes)
+                _, rel, sub = s.split(None, 2)
+                fr, to = sub.split('=')
+                key = rel + ' ' + sub
+                if key in seen:
+                    continue
+                seen.add(key)
+                with open(os.path.join(CONTRACTS, rel), encoding='utf-8') as f:
+                    body = [ln2 if ln2.strip().startswith('//@include') else re.sub(r'\b%s\b' % re.escape(fr), to, ln2) for ln2 in f.read().split('\n')]
+                body = [(ln2.replace('//@include ', '//@include_subst ', 1).rstrip() + ' ' + sub) if ln2.strip().startswith('//@include ') else ln2 for ln2 in body]
+                exp.extend(expand(body, depth + 1))
+            elif s.startswith('//@include '):
                 rel = s[len('//@include '):].strip()
                 if rel in seen:
                     continue
@@ -1121,6 +1290,18 @@ def process_template(unit, tpl_path=None, canary=False):
                 header = ' '.join(strip_attrs_and_docs(src[imp.s:imp.body_s], ctx).split())
                 keep_assoc = dict(assoc_types)
                 i += 1
+            mono = None
+            if i < len(lines) and lines[i].strip().startswith('//@mono '):
+                # R30: monomorphisation `//@mono L=u8`: the type parameter is replaced by the concrete type in the impl header and in
+                # every function taken from this impl (what the compiler does for each instantiation)
+                mono = lines[i].strip()[len('//@mono '):].split('=')
+                hdr0 = header
+                header = re.sub(r'<\s*%s\s*,\s*' % mono[0], '<', header, count=1)          # generics list
+                header = re.sub(r'\b%s\s*:\s*[\w:]+\s*,?' % mono[0], '', header)          # its where-bound
+                header = re.sub(r'\b%s\b' % mono[0], mono[1], header)
+                header = re.sub(r'where\s*$', '', header.strip())
+                ctx.note('R30', ' '.join(hdr0.split()), ' '.join(header.split()))
+                i += 1
             out.append(header + ' {')
             if keep_trait:
                 for k, v in assoc_types.items():
@@ -1139,7 +1320,10 @@ def process_template(unit, tpl_path=None, canary=False):
                     if ' for ' in owner:
                         owner = owner.split(' for ', 1)[1]
                     owner = owner.split('<')[0].split(' where')[0].strip()
-                    emit_fn(path, owner, src[it.s:it.e], spec, assoc_types)
+                    fsrc = src[it.s:it.e]
+                    if mono:
+                        fsrc = re.sub(r'\b%s\b' % mono[0], mono[1], fsrc)
+                    emit_fn(path, owner, fsrc, spec, assoc_types)
                     continue
                 if s2.startswith('//@assoc '):
                     _, kind, name = s2.split(None, 2)
